@@ -9,6 +9,9 @@
 //   usage: purity --prop Cxx  (+ the usual vf options)
 #include "vf_fork.hpp"
 #include <thread>
+#include <atomic>
+#include <cfenv>
+#include <xmmintrin.h>
 
 using namespace vf;
 using namespace dsplib;
@@ -66,7 +69,7 @@ static std::vector<Fn> catalogue() {
     std::vector<Fn> F;
     auto add = [&](const char* prop, const char* name, std::vector<std::function<Out(Arena&)>> v) { F.push_back(Fn{prop, name, std::move(v)}); };
     // ------------------------------------------------------------------ C01 / C10: transforms
-    for (const char* p : {"C10"}) {
+    for (const char* p : {"C10,C01"}) {
         add(p, "fft(cmplx)", {V(fill(A.c1, 12, 1); return flat(fft(A.c1));), V(fill(A.c1, 12, 2); return flat(fft(A.c1));), V(fill(A.c1, 16, 3); return flat(fft(A.c1));),
                               V(fill(A.c1, 53, 4); return flat(fft(A.c1));)});
         add(p, "fft(real)", {V(fill(A.r1, 30, 1); return flat(fft(A.r1));), V(fill(A.r1, 30, 2); return flat(fft(A.r1));), V(fill(A.r1, 15, 3); return flat(rfft(A.r1));),
@@ -91,13 +94,13 @@ static std::vector<Fn> catalogue() {
                                       V(fill(A.r1, 60, 1); auto S = stft(A.r1, window::hann(16, false), 12, 32); Out o; for (auto& f : S) o = cat(o, flat(f)); return o;),
                                       V(fill(A.r1, 60, 1); auto S = stft(A.r1, window::hann(16, false), 8, 32, StftRange::Twosided); Out o; for (auto& f : S) o = cat(o, flat(f)); return o;)});
     // ------------------------------------------------------------------ C07
-    add("C07", "FirFilterR(h).process", {V(fill(A.r1, 9, 1); fill(A.r2, 40, 5); FirFilterR f(A.r1); return flat(f.process(A.r2));), V(fill(A.r1, 9, 2); fill(A.r2, 40, 5); FirFilterR f(A.r1); return flat(f.process(A.r2));),
+    add("C07,C06", "FirFilterR(h).process", {V(fill(A.r1, 9, 1); fill(A.r2, 40, 5); FirFilterR f(A.r1); return flat(f.process(A.r2));), V(fill(A.r1, 9, 2); fill(A.r2, 40, 5); FirFilterR f(A.r1); return flat(f.process(A.r2));),
                                          V(fill(A.r1, 9, 2); fill(A.r2, 40, 6); FirFilterR f(A.r1); return flat(f.process(A.r2));), V(fill(A.r1, 8, 3); fill(A.r2, 40, 5); FirFilterR f(A.r1); return flat(f.process(A.r2));)});
-    add("C07", "FirFilterC(h).process", {V(fill(A.c1, 6, 1); fill(A.c2, 30, 5); FirFilterC f(A.c1); return flat(f.process(A.c2));), V(fill(A.c1, 6, 2); fill(A.c2, 30, 5); FirFilterC f(A.c1); return flat(f.process(A.c2));),
+    add("C07,C06", "FirFilterC(h).process", {V(fill(A.c1, 6, 1); fill(A.c2, 30, 5); FirFilterC f(A.c1); return flat(f.process(A.c2));), V(fill(A.c1, 6, 2); fill(A.c2, 30, 5); FirFilterC f(A.c1); return flat(f.process(A.c2));),
                                          V(fill(A.c1, 6, 1); fill(A.c2, 30, 5); FirFilterC f(A.c1); f.coeffs()[2] = cmplx_t(3, -1); return flat(f.process(A.c2));)});
     add("C07", "FirFilter::conv", {V(fill(A.r1, 30, 1); fill(A.r2, 7, 2); return flat(FirFilterR::conv(A.r1, A.r2));), V(fill(A.r1, 30, 1); fill(A.r2, 7, 3); return flat(FirFilterR::conv(A.r1, A.r2));),
                                    V(fill(A.r1, 30, 4); fill(A.r2, 7, 3); return flat(FirFilterR::conv(A.r1, A.r2));)});
-    add("C07", "FftFilter(h).process", {V(fill(A.r1, 9, 1); fill(A.r2, 64, 5); FftFilter f(A.r1); return flat(f.process(A.r2));), V(fill(A.r1, 9, 2); fill(A.r2, 64, 5); FftFilter f(A.r1); return flat(f.process(A.r2));),
+    add("C07,C06", "FftFilter(h).process", {V(fill(A.r1, 9, 1); fill(A.r2, 64, 5); FftFilter f(A.r1); return flat(f.process(A.r2));), V(fill(A.r1, 9, 2); fill(A.r2, 64, 5); FftFilter f(A.r1); return flat(f.process(A.r2));),
                                         V(fill(A.r1, 5, 3); fill(A.r2, 64, 5); FftFilter f(A.r1); return flat(f.process(A.r2));)});
     add("C07", "xcorr", {V(fill(A.r1, 20, 1); fill(A.r2, 9, 2); return flat(xcorr(A.r1, A.r2));), V(fill(A.r1, 20, 3); fill(A.r2, 9, 2); return flat(xcorr(A.r1, A.r2));),
                          V(fill(A.c1, 20, 1); fill(A.c2, 9, 2); return flat(xcorr(A.c1, A.c2));), V(fill(A.r1, 12, 4); return flat(xcorr(A.r1));)});
@@ -109,10 +112,10 @@ static std::vector<Fn> catalogue() {
                                  V(fill(A.r1, 30, 1); return flat(resample(A.r1, 1, 3));)});
     add("C08", "resample(n,beta)", {V(fill(A.r1, 30, 1); return flat(resample(A.r1, 3, 2, 10, 5.0));), V(fill(A.r1, 30, 1); return flat(resample(A.r1, 3, 2, 15, 5.0));), V(fill(A.r1, 30, 1); return flat(resample(A.r1, 3, 2, 10, 8.0));),
                                     V(fill(A.r1, 30, 1); return flat(resample(A.r1, 2, 1, 15, 5.0));)});
-    add("C08", "converters", {V(fill(A.r1, 24, 1); FIRRateConverter f(2, 3); return flat(f.process(A.r1));), V(fill(A.r1, 24, 1); FIRInterpolator f(2); return flat(f.process(A.r1));),
+    add("C08,C06", "converters", {V(fill(A.r1, 24, 1); FIRRateConverter f(2, 3); return flat(f.process(A.r1));), V(fill(A.r1, 24, 1); FIRInterpolator f(2); return flat(f.process(A.r1));),
                               V(fill(A.r1, 24, 1); FIRDecimator f(3); return flat(f.process(A.r1));), V(fill(A.r1, 24, 1); FIRInterpolator f(3); return flat(f.process(A.r1));)});
     add("C08", "design_multirate_fir(L,M)", {V(return flat(design_multirate_fir(2, 3));), V(return flat(design_multirate_fir(2, 1));), V(return flat(design_multirate_fir(3, 1));), V(return flat(design_multirate_fir(1, 3));)});
-    add("C08", "FIRResampler(p,q).process", {V(fill(A.r1, 24, 1); FIRResampler f(3, 2); return flat(f.process(A.r1));), V(fill(A.r1, 24, 2); FIRResampler f(3, 2); return flat(f.process(A.r1));),
+    add("C08,C06", "FIRResampler(p,q).process", {V(fill(A.r1, 24, 1); FIRResampler f(3, 2); return flat(f.process(A.r1));), V(fill(A.r1, 24, 2); FIRResampler f(3, 2); return flat(f.process(A.r1));),
                                              V(fill(A.r1, 24, 1); FIRResampler f(6, 4); return flat(f.process(A.r1));), V(fill(A.r1, 24, 1); FIRResampler f(1, 2); return flat(f.process(A.r1));)});
     add("C08", "design_multirate_fir", {V(return flat(design_multirate_fir(3, 2));), V(return flat(design_multirate_fir(2, 3));), V(return flat(design_multirate_fir(3, 2, 6, 60));)});
     // ------------------------------------------------------------------ C11
@@ -139,9 +142,9 @@ static std::vector<Fn> catalogue() {
     // ------------------------------------------------------------------ C14
     add("C14", "hilbert", {V(fill(A.r1, 24, 1); return flat(hilbert(A.r1));), V(fill(A.r1, 24, 2); return flat(hilbert(A.r1));), V(fill(A.r1, 24, 1); return flat(hilbert(A.r1, 25));),
                            V(fill(A.r1, 25, 1); return flat(hilbert(A.r1, 24));)});
-    add("C14", "HilbertFilter(n).process", {V(fill(A.r1, 80, 1); HilbertFilter f(31, 0.05); return flat(f.process(A.r1));), V(fill(A.r1, 80, 2); HilbertFilter f(31, 0.05); return flat(f.process(A.r1));),
+    add("C14,C06", "HilbertFilter(n).process", {V(fill(A.r1, 80, 1); HilbertFilter f(31, 0.05); return flat(f.process(A.r1));), V(fill(A.r1, 80, 2); HilbertFilter f(31, 0.05); return flat(f.process(A.r1));),
                                             V(fill(A.r1, 80, 1); HilbertFilter f(31, 0.1); return flat(f.process(A.r1));), V(fill(A.r1, 80, 1); HilbertFilter f(33, 0.05); return flat(f.process(A.r1));)});
-    add("C14", "Tuner(fs,f).process", {V(fill(A.c1, 40, 1); Tuner t(8, 1.25); return flat(t.process(A.c1));), V(fill(A.c1, 40, 2); Tuner t(8, 1.25); return flat(t.process(A.c1));),
+    add("C14,C06", "Tuner(fs,f).process", {V(fill(A.c1, 40, 1); Tuner t(8, 1.25); return flat(t.process(A.c1));), V(fill(A.c1, 40, 2); Tuner t(8, 1.25); return flat(t.process(A.c1));),
                                        V(fill(A.c1, 40, 1); Tuner t(8, -2.5); return flat(t.process(A.c1));), V(fill(A.c1, 40, 1); Tuner t(9, 1.25); return flat(t.process(A.c1));)});
     // ------------------------------------------------------------------ C15
     add("C15", "isprime/factor", {V(return cat(flat((double)isprime(65537)), flat(factor(65537)));), V(return cat(flat((double)isprime(65536)), flat(factor(360360)));),
@@ -158,7 +161,7 @@ static std::vector<Fn> catalogue() {
             {[ty](Arena& A) -> Out { perm(A.r1, 12, 1); perm(A.r2, 12, 2); return flat(corr(A.r1, A.r2, ty)); }, [ty](Arena& A) -> Out { perm(A.r1, 12, 3); perm(A.r2, 12, 2); return flat(corr(A.r1, A.r2, ty)); },
              [ty](Arena& A) -> Out { perm(A.r1, 12, 1); perm(A.r2, 12, 4); return flat(corr(A.r1, A.r2, ty)); }, [ty](Arena& A) -> Out { perm(A.r1, 12, 2); perm(A.r2, 12, 1); return flat(corr(A.r1, A.r2, ty)); }});
     }
-    add("C16", "medfilt/MedianFilter", {V(perm(A.r1, 20, 1); return flat(medfilt(A.r1, 5));), V(perm(A.r1, 20, 2); return flat(medfilt(A.r1, 5));), V(perm(A.r1, 20, 1); MedianFilter m(5); return flat(m.process(A.r1));),
+    add("C16,C06", "medfilt/MedianFilter", {V(perm(A.r1, 20, 1); return flat(medfilt(A.r1, 5));), V(perm(A.r1, 20, 2); return flat(medfilt(A.r1, 5));), V(perm(A.r1, 20, 1); MedianFilter m(5); return flat(m.process(A.r1));),
                                         V(perm(A.r1, 20, 1); MedianFilter m(4, -1); return flat(m.process(A.r1));)});
     // ------------------------------------------------------------------ C17
     add("C17", "reductions", {V(fill(A.r1, 17, 1); return Out{sum(A.r1), mean(A.r1), stddev(A.r1), rms(A.r1), norm(A.r1), norm(A.r1, 3), max(A.r1), min(A.r1), (double)argmax(A.r1), peak2peak(A.r1)};),
@@ -192,7 +195,7 @@ static std::vector<Fn> catalogue() {
     // ------------------------------------------------------------------ length variants: the same call on inputs of different
     // LENGTH inside one power-of-two bucket (a scratch buffer that is re-zeroed / re-sized only when the padded size changes
     // keeps the tail of a longer earlier input); every order of long/short is covered by the sequences
-    add("C10", "fft(prime lengths, one czt size)", {V(fill(A.c1, 53, 1); return flat(fft(A.c1));), V(fill(A.c1, 59, 1); return flat(fft(A.c1));), V(fill(A.c1, 61, 1); return flat(fft(A.c1));),
+    add("C10,C01", "fft(prime lengths, one czt size)", {V(fill(A.c1, 53, 1); return flat(fft(A.c1));), V(fill(A.c1, 59, 1); return flat(fft(A.c1));), V(fill(A.c1, 61, 1); return flat(fft(A.c1));),
                                                     V(fill(A.c1, 47, 1); return flat(fft(A.c1));)});
     add("C02", "istft(stft) lengths", {V(fill(A.r1, 40, 1); return flat(istft(stft(A.r1, 8), 8));), V(fill(A.r1, 29, 1); return flat(istft(stft(A.r1, 8), 8));), V(fill(A.r1, 64, 1); return flat(istft(stft(A.r1, 8), 8));),
                                        V(fill(A.r1, 17, 1); return flat(istft(stft(A.r1, 8), 8));)});
@@ -224,17 +227,54 @@ static std::vector<Fn> catalogue() {
                                        V(fill(A.r1, 2049, 1, 1e-3); for (int i = 0; i < 2049; ++i) A.r1[i] += std::sin(2 * pi * 0.0731 * i) + 0.1 * std::sin(2 * pi * 0.1462 * i); return cat(Out{snr(A.r1), sinad(A.r1), thd(A.r1).value}, flat(thd(A.r1, 3).harmfreq));)});
     add("C19", "awgn lengths", {V(rng(5); fill(A.r1, 40, 1); return flat(awgn(A.r1, 10));), V(rng(5); fill(A.r1, 23, 1); return flat(awgn(A.r1, 10));), V(rng(5); fill(A.c1, 40, 1); return flat(awgn(A.c1, 10));),
                                 V(rng(5); fill(A.c1, 23, 1); return flat(awgn(A.c1, 10));)});
+    // ------------------------------------------------------------------ C06: "construct, use, destroy" of the stream processors that have
+    // no entry above (a later object of the same shape must not inherit anything from an earlier one)
+    add("C06", "Delay(n).process", {V(fill(A.r1, 30, 1); Delay<real_t> d(5); return flat(d.process(A.r1));), V(fill(A.r1, 30, 2); Delay<real_t> d(5); return flat(d.process(A.r1));),
+                                    V(fill(A.r1, 30, 1); Delay<real_t> d(7); return flat(d.process(A.r1));), V(fill(A.c1, 30, 1); fill(A.c2, 5, 9); Delay<cmplx_t> d(A.c2); return flat(d.process(A.c1));)});
+    add("C06", "Compressor/Limiter", {V(fill(A.r1, 200, 1); Compressor c(8000, -20.0, 4, 6.0, 0.001, 0.01); auto r = c.process(A.r1); return cat(flat(r.out), flat(r.gain));),
+                                      V(fill(A.r1, 200, 2); Compressor c(8000, -20.0, 4, 6.0, 0.001, 0.01); auto r = c.process(A.r1); return cat(flat(r.out), flat(r.gain));),
+                                      V(fill(A.r1, 200, 1); Compressor c(8000, -10.0, 2, 0.0, 0.0, 0.002); auto r = c.process(A.r1); return cat(flat(r.out), flat(r.gain));),
+                                      V(fill(A.r1, 200, 1); Limiter c(8000, -15.0, 4.0, 0.0, 0.002); auto r = c.process(A.r1); return cat(flat(r.out), flat(r.gain));)});
+    add("C06", "NoiseGate/Agc", {V(fill(A.r1, 200, 1); NoiseGate g(8000, -12.0, 0.001, 0.002, 0.002); auto r = g.process(A.r1); return cat(flat(r.out), flat(r.gain));),
+                                 V(fill(A.r1, 200, 2); NoiseGate g(8000, -12.0, 0.001, 0.002, 0.002); auto r = g.process(A.r1); return cat(flat(r.out), flat(r.gain));),
+                                 V(fill(A.r1, 200, 1); Agc a(1.0, 60.0, 10); auto r = a.process(A.r1); return cat(flat(r.out), flat(r.gain));),
+                                 V(fill(A.r1, 200, 1); Agc a(0.5, 20.0, 16); auto r = a.process(A.r1); return cat(flat(r.out), flat(r.gain));)});
+    add("C06", "LmsFilter/RlsFilter", {V(fill(A.r1, 60, 1); fill(A.r2, 60, 2); LmsFilterR f(4, 0.05, LmsType::LMS, 0.999); auto r = f.process(A.r1, A.r2); return cat(cat(flat(r.y), flat(r.e)), flat(f.coeffs()));),
+                                       V(fill(A.r1, 60, 3); fill(A.r2, 60, 2); LmsFilterR f(4, 0.05, LmsType::LMS, 0.999); auto r = f.process(A.r1, A.r2); return cat(cat(flat(r.y), flat(r.e)), flat(f.coeffs()));),
+                                       V(fill(A.r1, 60, 1); fill(A.r2, 60, 2); LmsFilterR f(4, 0.5, LmsType::NLMS, 1.0); auto r = f.process(A.r1, A.r2); return cat(cat(flat(r.y), flat(r.e)), flat(f.coeffs()));),
+                                       V(fill(A.r1, 60, 1); fill(A.r2, 60, 2); RlsFilterR f(4, 0.98, 10.0); auto r = f.process(A.r1, A.r2); return cat(cat(flat(r.y), flat(r.e)), flat(f.coeffs()));)});
     return F;
 }
 
 static bool same(const Out& a, const Out& b) { return a.size() == b.size() && (a.empty() || memcmp(a.data(), b.data(), a.size() * 8) == 0); }
 
+// floating-point control state of the calling thread (rounding mode, flush-to-zero, denormals-are-zero, exception masks):
+// a library call must leave it as it found it, or later arithmetic of the caller silently changes
+static std::atomic<unsigned> g_fpenv_bad{0};
+static unsigned fp_control() { return (_mm_getcsr() & 0xFFC0u) | ((unsigned)fegetround() << 16); }
 static Out call(const std::function<Out(Arena&)>& v, Arena& A) {
+    const unsigned csr0 = _mm_getcsr();
+    const int rnd0 = fegetround();
+    const unsigned before = fp_control();
+    Out o;
     try {
-        return v(A);
+        o = v(A);
     } catch (const std::exception&) {
-        return Out{THROWN};
+        o = Out{THROWN};
     }
+    const unsigned after = fp_control();
+    if (after != before) {
+        g_fpenv_bad.store(0x80000000u | ((before & 0xFFFFu) << 8) | ((after & 0xFFFFu) >> 6 & 0xFFu) | (after & 0xFF0000u));
+        _mm_setcsr((_mm_getcsr() & 0x3Fu) | (csr0 & 0xFFC0u));
+        fesetround(rnd0);
+    }
+    return o;
+}
+static void check_fpenv(ChildCtx& c, const std::string& fn, const std::string& where) {
+    unsigned b = g_fpenv_bad.exchange(0);
+    if (b)
+        c.fail(fn.c_str(), fmt("%s: the call changed the floating-point control state of the calling thread (MXCSR control bits / rounding mode; code 0x%08x: FTZ = bit 15, DAZ = bit 6 of MXCSR)", where.c_str(), b),
+               "rounding mode, flush-to-zero and denormals-are-zero flags are left as the caller set them", P().kv("aspect", "fpenv"));
 }
 
 int main(int argc, char** argv) {
@@ -245,7 +285,7 @@ int main(int argc, char** argv) {
     ctx.parse(argc, argv, prop.c_str());
     auto F = catalogue();
     for (auto& f : F) {
-        if (f.prop != prop) continue;
+        if (("," + f.prop + ",").find("," + prop + ",") == std::string::npos) continue;   // prop may be a comma-separated list
         const int nv = (int)f.var.size();
         std::string chk = "purity." + f.name;
         if (!ctx.take(chk.c_str(), P().kv("fn", f.name).kv("variants", nv))) continue;
@@ -262,6 +302,7 @@ int main(int argc, char** argv) {
                         o = call(f.var[(size_t)v], A);
                     });
                     t.join();
+                    check_fpenv(c, f.name, fmt("variant %d as the first call of a fresh thread", v));
                     if (rep == 0) fresh[(size_t)v] = o;
                     else if (!same(fresh[(size_t)v], o)) {
                         c.fail(f.name.c_str(), fmt("variant %d: the first call of a fresh thread is not deterministic", v), "deterministic function");
@@ -298,6 +339,7 @@ int main(int argc, char** argv) {
                         }
                     });
                     t.join();
+                    check_fpenv(c, f.name, "sequence " + show(seq));
                     if (!err.empty()) c.fail(f.name.c_str(), "sequence " + show(seq) + ": " + err, "bit-identical result: the result depends only on the arguments", P().list("seq", seq));
                 }
             }
